@@ -19,3 +19,6 @@ func RaceEnable()                  {}
 
 func HandOver(p unsafe.Pointer) {}
 func TakeOver(p unsafe.Pointer) {}
+
+func raceWriteRange(b []byte, n int) {}
+func raceReadRange(b []byte)         {}
